@@ -182,6 +182,12 @@ def _check_item_blocks(it, item, cfg, inzip, where, admin):
             typ = m.group(1).decode()
             if it["kind"] == "dir" or it["kind"] == "mbox":
                 ok = typ in ("application/gopher-menu", "application/gopher+-menu")
+                # the Gopher+ menu type is for items whose own +INFO line says they speak Gopher+ (trailing '+' field)
+                info = item.get("infoline") or b""
+                if typ == "application/gopher+-menu" and not info.rstrip(b"\r\n").endswith(b"\t+"):
+                    fails.append(Fail("views-type:gopher+-menu-without-flag",
+                                      "%s: +VIEWS names application/gopher+-menu for %r, whose +INFO line %r carries no Gopher+ flag" % (
+                                          where, it["name"], info)))
             else:
                 ok = typ == mime.served_type(cfg, it["name"])
             if not ok:
